@@ -3,6 +3,7 @@ CONSTANTS
   MaxElems = 4
   MaxDepth = 6
   Fixed = TRUE
+  ReadTypes = {"n", "w", "r", "c"}
   ExportHist = TRUE
   Vocab = {"osm", "osmChange", "create", "modify", "delete", "node", "way", "relation", "changeset", "tag", "nd", "member", "discussion", "comment", "text", "bounds", "bbox", "foo"}
 INVARIANTS TypeOK WellFormedCommitted BuilderDiscipline NoStaleBuilders ObjectMatchesStack Export
